@@ -241,6 +241,12 @@ def c17_configs(thorough):
                                 callers=[("send", "q", {"exc": False})]), n))
         out.append(("dfs", dict(driver=d, limit=1, budget={"lose": 1, "back": 0},
                                 callers=[("send", "q", {}), ("seq", ["off", "q"], {})]), n))
+        # the device node found through a glob pattern: away = the pattern matches nothing (no os.open at all)
+        for lim in (None, 2):
+            out.append(("dfs", dict(driver=d, limit=lim, glob=True, budget={"lose": 1, "back": 1},
+                                    callers=[("send", "q", {"exc": False}), ("send", "off", {})]), n))
+        out.append(("sweep", dict(driver=d, limit=None, glob=True, budget={"lose": 1, "back": 1},
+                                  callers=[("send", "dtq", {"exc": False}), ("send", "q", {})]), 0))
         # after 'failed' the application calls connect() itself while the device is STILL away: the attempts start
         # over and 'failed' is reported a second (third) time  (strengthening after seeded round 6)
         for lim in (0, 1, 2):
